@@ -992,9 +992,35 @@ func ruleCompactionScansEndOnlyAtEOF(c *eng.Ctx) {
 		var at ssa.Instruction
 		for _, sc := range scans {
 			at = sc.(ssa.Instruction)
-			errv := func(v ssa.Value) bool {
-				e, isE := v.(*ssa.Extract)
-				return isE && e.Tuple == sc.Value() && e.Index == 2
+			// the error of this Scan, or — `for ms, e, err := ss.Scan(); err != io.EOF; ms, e, err = ss.Scan()` — the merge of
+			// the errors of the function's Scan calls with this one among them
+			isScan := func(t ssa.Value) bool {
+				for _, o := range scans {
+					if o.Value() == t {
+						return true
+					}
+				}
+				return false
+			}
+			var errv func(v ssa.Value) bool
+			errv = func(v ssa.Value) bool {
+				switch e := v.(type) {
+				case *ssa.Extract:
+					return e.Tuple == sc.Value() && e.Index == 2
+				case *ssa.Phi:
+					mine := false
+					for _, x := range e.Edges {
+						ex, isE := x.(*ssa.Extract)
+						if !isE || ex.Index != 2 || !isScan(ex.Tuple) {
+							return false
+						}
+						if ex.Tuple == sc.Value() {
+							mine = true
+						}
+					}
+					return mine
+				}
+				return false
 			}
 			cuts := append(eng.CmpEdges(fn, errv, eng.Global("io.EOF"), eng.EQ), eng.CmpEdges(fn, errv, eng.NilConst, eng.EQ)...)
 			hasErrors := fn.Signature.Results().Len() > 0
